@@ -12,7 +12,7 @@ para      = concatenation of field['comments'] + field['body']
 
 NAMES = ['Package', 'Source', 'Depends', 'Description', 'X-Foo', 'foo', 'Architecture', 'A', 'b1', 'Build-Depends',
          'Homepage', 'section', 'Priority', 'Vcs-Git', 'XB-Y', 'Z', 'Files', 'Uploaders', 'Maintainer', 'Rules-Requires-Root']
-SEPS = ['\n', '\n', '\n\n', ' \n', '\n# free comment\n\n', '\n\n# free 1\n# free 2\n\n', '\t\n']
+SEPS = ['\n', '\n', '\n\n', ' \n', '\n# free comment\n\n', '\n\n# free 1\n# free 2\n\n', '\t\n', '\n#free  \n#\n\n']
 LEADS = ['', '', '', '\n', '# leading comment\n\n', '\n\n', '# l1\n# l2\n\n']
 TRAILS = ['', '', '', '\n', '\n\n', '\n# trailing comment\n', '# directly trailing comment\n']
 WORDS = [':', '#', ',', '=', '\xe9', '(>= 1.0)', '|', '${x}', 'B:', '-', '.', '<a@b.c>']
@@ -39,8 +39,23 @@ def gen_content(r, ids, allow_empty=False):
     return r.choice([' ', ' ', '  ', ', ']).join(parts).strip()
 
 
+def gen_comment_line(r, ids, prefix='c'):
+    """One comment line; includes layouts a re-rendering would normalise away (no blank after '#', trailing
+    blanks/tabs, the bare '#')."""
+    k = r.random()
+    if k < .6:
+        return '# %s\n' % ids.next(prefix)
+    if k < .75:
+        return '# %s%s\n' % (ids.next(prefix), r.choice([' ', '  ', '\t']))
+    if k < .85:
+        return '#%s\n' % ids.next(prefix)
+    if k < .93:
+        return '#   %s  x\n' % ids.next(prefix)
+    return r.choice(['#\n', '# \n', '#\t\n'])
+
+
 def gen_field(r, ids, name, max_cont=3):
-    comments = ''.join('# %s\n' % ids.next('c') for _ in range(r.choice([0, 0, 0, 1, 2])))
+    comments = ''.join(gen_comment_line(r, ids) for _ in range(r.choice([0, 0, 0, 1, 2])))
     after = r.choice(['', ' ', ' ', ' ', '\t', '  '])
     ncont = r.choice([0, 0, 0, 1, 2, 3][:max_cont + 3])
     first = gen_content(r, ids, allow_empty=True)
@@ -52,7 +67,7 @@ def gen_field(r, ids, name, max_cont=3):
     pending_comment = False
     for i in range(ncont):
         if r.random() < .25:
-            body += '# %s\n' % ids.next('ic')
+            body += gen_comment_line(r, ids, 'ic')
         marker = r.choice([' ', ' ', '\t', '  ', ' \t'])
         content = gen_content(r, ids)
         if content.startswith('#') and marker in (' ', '\t') and False:
